@@ -1030,12 +1030,21 @@ pub fn e2e_seam_check() -> Result<(), String> {
             }
             let probe = std::env::current_exe().ok().and_then(|p| p.parent().map(|d| d.join("hashprobe"))).ok_or("no exe dir")?;
             let run = |seed: &str| -> Result<String, String> {
-                let o = std::process::Command::new(&probe).env_clear().env("LD_PRELOAD", &so).env("ACBSIM_SEED", seed).env("ACBSIM_NOW", "1600000000").env("ACBSIM_PID", "4242").output().map_err(|e| format!("cannot run {:?}: {}", probe, e))?;
+                let mut c = std::process::Command::new(&probe);
+                c.env_clear().env("LD_PRELOAD", &so).env("ACBSIM_SEED", seed).env("ACBSIM_NOW", "1600000000").env("ACBSIM_PID", "4242");
+                own_memory_layout(&mut c, seed.parse().unwrap_or(0));
+                let o = c.output().map_err(|e| format!("cannot run {:?}: {}", probe, e))?;
                 Ok(String::from_utf8_lossy(&o.stdout).to_string())
             };
             let (a, a2, b) = (run("1")?, run("1")?, run("2")?);
             if a != a2 || a == b || !a.contains("now=1600000000 pid=4242") {
-                return Err(format!("end-to-end lane: the LD_PRELOAD seam does not own entropy/clock/pid of a real process: {:?} / {:?} / {:?}", a, a2, b));
+                return Err(format!("end-to-end lane: the LD_PRELOAD seam does not own entropy/clock/pid/memory layout of a real process: {:?} / {:?} / {:?}", a, a2, b));
+            }
+            // the memory layout alone must follow the seed as well (heap, mapped and stack addresses)
+            let layout = |s: &str| s.rsplit("layout=").next().unwrap_or("").trim().split('/').map(|x| x.to_string()).collect::<Vec<_>>();
+            let (la, lb) = (layout(&a), layout(&b));
+            if la.len() != 3 || lb.len() != 3 || (0..3).any(|i| la[i] == lb[i]) {
+                return Err(format!("end-to-end lane: heap/mmap/stack addresses of a real process do not follow the seed: {:?} / {:?}", la, lb));
             }
             Ok(())
         })
@@ -1054,6 +1063,24 @@ fn mode_args(mode: Mode, summarize_before: &str, out_dir: &str) -> Vec<String> {
         Mode::SummaryAnnual => vec![s("--summarize-before"), s(summarize_before), s("--summarize-annual-gains")],
         Mode::SummaryCsvDir => vec![s("--summarize-before"), s(summarize_before), s("--print-full-values"), s("--csv-output-dir"), s(out_dir)],
         Mode::TotalCostsFull => vec![s("--total-costs"), s("--print-full-values")],
+    }
+}
+
+/// Memory addresses are per-process randomness too (ASLR): the real process runs with address-space
+/// randomisation switched off, and heap, mapped and stack addresses are shifted by amounts derived
+/// from the seed (preload constructor; length of a padding environment variable).
+pub fn own_memory_layout(c: &mut std::process::Command, seed: u64) {
+    use std::os::unix::process::CommandExt;
+    c.env("ACBSIM_LAYOUT", seed.to_string());
+    c.env("ACBSIM_PAD", "x".repeat(16 * (1 + (seed % 97) as usize)));
+    unsafe {
+        c.pre_exec(|| {
+            const ADDR_NO_RANDOMIZE: libc::c_ulong = 0x0040000;
+            if libc::personality(ADDR_NO_RANDOMIZE) == -1 {
+                return Err(std::io::Error::last_os_error());
+            }
+            Ok(())
+        });
     }
 }
 
@@ -1089,8 +1116,8 @@ pub fn run_e2e(sc: &Sc, mode: Mode, hash_seed: u64, used_out_dir: Option<&Vec<(S
     }
     let today = process_today(sc, hash_seed);
     let now = (today - d(1970, 1, 1)).whole_days() * 86_400 + 43_200 + (hash_seed % 21_600) as i64 - 10_800;
-    let o = std::process::Command::new(format!("{}/debug/acb", dir))
-        .args(&args)
+    let mut cmd = std::process::Command::new(format!("{}/debug/acb", dir));
+    cmd.args(&args)
         .current_dir(&root)
         .env_clear()
         .env("HOME", format!("{}/home", root))
@@ -1099,9 +1126,9 @@ pub fn run_e2e(sc: &Sc, mode: Mode, hash_seed: u64, used_out_dir: Option<&Vec<(S
         .env("ACBSIM_SEED", hash_seed.to_string())
         .env("ACBSIM_NOW", now.to_string())
         .env("ACBSIM_PID", (1000 + hash_seed % 30_000).to_string())
-        .stdin(std::process::Stdio::null())
-        .output()
-        .map_err(|e| format!("cannot start the real acb binary: {}", e))?;
+        .stdin(std::process::Stdio::null());
+    own_memory_layout(&mut cmd, hash_seed);
+    let o = cmd.output().map_err(|e| format!("cannot start the real acb binary: {}", e))?;
     let mut files: Vec<(String, Vec<u8>)> = vec![];
     if let Ok(rd) = std::fs::read_dir(format!("{}/out", root)) {
         for e in rd.flatten() {
